@@ -17,6 +17,7 @@ import XlModel.DvRecord
 import XlModel.CfRule
 import XlModel.Lemmas.XmlAttr
 import XlModel.Lemmas.Margins
+import XlModel.HeaderFooter
 
 namespace XlModel.Props.C18
 open XlModel XlModel.Settings
@@ -1266,5 +1267,57 @@ theorem margins_fresh_example :
       some ⟨[some "1", some "0.3", some "0.3", some "0.7", some "0.7", some "0.75"], some false, some true⟩ := by decide
 
 end MarginThms
+
+/-! ## header / footer: the hand-written field copy of SetHeaderFooter / GetHeaderFooter -/
+
+section HeaderFooterThms
+open XlModel.HeaderFooter
+
+/-- what justifies the positional model: setter and getter literals copy every option field to the
+field of the same name (as sets: the setter lists two names in another order), both structs declare
+the same names with the same types, and the length loop starts at the first string field -/
+theorem hf_facts_pinned :
+    Facts.C18.hfOptFields.length = 10 ∧ (Facts.C18.hfOptFields.map (·.1)).Nodup ∧
+    Facts.C18.hfGetCopies = Facts.C18.hfOptFields.map (fun f => (f.1, f.1)) ∧
+    Facts.C18.hfSetCopies.length = Facts.C18.hfOptFields.length ∧
+    Facts.C18.hfSetCopies.all (fun c => c.1 == c.2 && (Facts.C18.hfOptFields.map (·.1)).contains c.1) = true ∧
+    (Facts.C18.hfSetCopies.map (·.1)).Nodup ∧
+    Facts.C18.hfOptFields.all (Facts.C18.hfPartFields.contains ·) = true ∧
+    Facts.C18.hfPartFields.length = Facts.C18.hfOptFields.length ∧
+    (Facts.C18.hfOptFields.take Facts.C18.hfLoopFrom).all (fun f => f.2 != "string") = true ∧
+    (Facts.C18.hfOptFields.drop Facts.C18.hfLoopFrom).all (fun f => f.2 == "string") = true := by decide
+
+/-- `hf_set_get_roundtrip` (full): whatever was stored before, an accepted SetHeaderFooter makes the
+getter return exactly the options given (every field), nil options make it return nil, and a
+rejected call (a checked text longer than MaxFieldLength UTF-16 units) leaves no new state -/
+theorem hf_set_get (st : Option (List HeaderFooter.Val)) (o : Option (List HeaderFooter.Val)) :
+    (∀ st', setHF st o = some st' → getHF st' = o) ∧
+    (setHF st o = none ↔ ∃ f, o = some f ∧ ∃ v ∈ checked f, fieldTooLong v = true) := by
+  cases o with
+  | none => simp [setHF, getHF]
+  | some f =>
+    by_cases h : (checked f).any fieldTooLong = true
+    · have hs : setHF st (some f) = none := by simp [setHF, h]
+      rw [hs]
+      refine ⟨fun _ h' => (by cases h'), ⟨fun _ => ⟨f, rfl, ?_⟩, fun _ => rfl⟩⟩
+      simpa [List.any_eq_true] using h
+    · have hs : setHF st (some f) = some (some f) := by simp [setHF, h]
+      rw [hs]
+      refine ⟨fun st' h' => (by cases h'; rfl), ⟨fun h' => (by cases h'), ?_⟩⟩
+      rintro ⟨f', hf, v, hv, hl⟩
+      cases hf
+      exact absurd (List.any_eq_true.mpr ⟨v, hv, hl⟩) h
+
+/-- observation (not a round-trip defect): the loop bound `NumField()-1` stops one field early, so
+the LAST string field (FirstFooter) is never length-checked, while the same text in the field before
+it is rejected -/
+theorem hf_last_field_unchecked :
+    Facts.C18.hfLoopMinus = 1 ∧ Facts.C18.hfOptFields.getLast? = some ("FirstFooter", "string") ∧
+    let long := List.replicate 256 'x'
+    let base : List HeaderFooter.Val := [HeaderFooter.Val.pb none, HeaderFooter.Val.b false, HeaderFooter.Val.b false, HeaderFooter.Val.pb none, HeaderFooter.Val.s [], HeaderFooter.Val.s [], HeaderFooter.Val.s [], HeaderFooter.Val.s []]
+    setHF none (some (base ++ [HeaderFooter.Val.s [], HeaderFooter.Val.s long])) = some (some (base ++ [HeaderFooter.Val.s [], HeaderFooter.Val.s long])) ∧
+    setHF none (some (base ++ [HeaderFooter.Val.s long, HeaderFooter.Val.s []])) = none := by decide +kernel
+
+end HeaderFooterThms
 
 end XlModel.Props.C18
